@@ -66,6 +66,8 @@ type L2Options struct {
 	// Wrap lets a check interpose on the keepers handed to opchild (fault injection, C07).
 	WrapBank func(opchildtypes.BankKeeper) opchildtypes.BankKeeper
 	WrapAcc  func(opchildtypes.AccountKeeper) opchildtypes.AccountKeeper
+	// WrapAnteAcc interposes on the account keeper of the hook's decorator chain.
+	WrapAnteAcc func(authante.AccountKeeper) authante.AccountKeeper
 	// WrapBankMsg lets a check interpose on the bank msg server registered in the router (hook target).
 	WrapBankMsg func(banktypes.MsgServer) banktypes.MsgServer
 	// Genesis validators: (operator name, consensus key name)
@@ -133,13 +135,17 @@ func NewL2(opt L2Options) *L2 {
 	if opt.WrapAcc != nil {
 		oak = opt.WrapAcc(ak)
 	}
+	var anteAK authante.AccountKeeper = ak
+	if opt.WrapAnteAcc != nil {
+		anteAK = opt.WrapAnteAcc(ak)
+	}
 	k := opchildkeeper.NewKeeper(enc.Marshaler, runtime.NewKVStoreService(keys[opchildtypes.StoreKey]), oak, obk, &ok,
 		sdk.ChainAnteDecorators(
-			authante.NewSetPubKeyDecorator(ak),
-			authante.NewValidateSigCountDecorator(ak),
-			authante.NewSigGasConsumeDecorator(ak, authante.DefaultSigVerificationGasConsumer),
-			authante.NewSigVerificationDecorator(ak, enc.TxConfig.SignModeHandler()),
-			authante.NewIncrementSequenceDecorator(ak),
+			authante.NewSetPubKeyDecorator(anteAK),
+			authante.NewValidateSigCountDecorator(anteAK),
+			authante.NewSigGasConsumeDecorator(anteAK, authante.DefaultSigVerificationGasConsumer),
+			authante.NewSigVerificationDecorator(anteAK, enc.TxConfig.SignModeHandler()),
+			authante.NewIncrementSequenceDecorator(anteAK),
 		),
 		enc.TxConfig.TxDecoder(), router, authority,
 		authcodec.NewBech32Codec(sdk.GetConfig().GetBech32AccountAddrPrefix()),
